@@ -384,3 +384,43 @@ func c02Driver(prop string) {
 //verif:bounds as VH_C02_client_driver_succeeds_only_if_the_exchange_did; handshake time limit configured as none / timeout / absolute deadline / both
 //verif:cover completed;aborted
 func VH_C03_established_client_session_has_no_handshake_deadline_armed() { c02Driver("C03") }
+
+// ---- C10: the CLIENT's handshake readers on whatever arrives ----
+// (the same harnesses: datagram of symbolic length and content inside a buffer
+// with arbitrary stale bytes; a panic is a violation)
+
+//verif:prop C10
+//verif:replay none
+//verif:bounds as VH_C02_client_reads_serverhello with the datagram length symbolic 0..4096
+//verif:cover accepted;rejected
+func VH_C10_client_survives_any_serverhello_datagram() {
+	hsAnyLength = true
+	VH_C02_client_reads_serverhello()
+}
+
+//verif:prop C10
+//verif:replay none
+//verif:bounds as VH_C01_client_reads_serverauth with the datagram length symbolic 0..4096
+//verif:cover accepted;rejected
+func VH_C10_client_survives_any_serverauth_datagram() {
+	hsAnyLength = true
+	VH_C01_client_reads_serverauth()
+}
+
+//verif:prop C10
+//verif:replay none
+//verif:bounds as VH_C01_client_reads_hidden_serverresponse with the datagram length symbolic 0..4096
+//verif:cover accepted;rejected
+func VH_C10_client_survives_any_hidden_serverresponse_datagram() {
+	hsAnyLength = true
+	VH_C01_client_reads_hidden_serverresponse()
+}
+
+//verif:prop C10
+//verif:replay none
+//verif:bounds as VH_C02_client_flow_consumes_each_datagram_exactly
+//verif:cover completed;aborted
+//verif:timeout 600
+func VH_C10_client_handshake_flow_survives_any_two_server_datagrams() {
+	VH_C02_client_flow_consumes_each_datagram_exactly()
+}
